@@ -98,14 +98,14 @@ CHECKS = {
    note=TB + "No executable PowerPC reference is available offline: the opcode table in p_c18.py is hand-written. The per-class string code (str/asm) has no Gallina model.",
    design='4/C18'),
  'C04': dict(
-   technique='Coq theorems for the arithmetic/logic group (mirror of the lifter tied to the regenerated IR by syntactic identity, kernel-checked by reflection) + evaluation of the whole integer core with the extracted Coq denotation against an SDM reference',
+   technique='Coq theorems for the arithmetic/logic group (mirror of the lifter tied to the regenerated IR by syntactic identity, kernel-checked by reflection) and for the condition-code families (semantic check of the regenerated IR under all flag valuations, lifted to all states) + evaluation of the whole integer core with the extracted Coq denotation against an SDM reference',
    text=("Theorems (props/C04.v, closed): (tie) every add/adc/sub/sbb/cmp/and/or/xor/test form (>2000) with operands of equal width and every inc/dec/neg form (>150) of the lifted dump regenerated from /repo — every operand shape and width — is, node for node, "
          "the mirror Sem.v applied to its own operands; (meaning) for ALL operand expressions of equal width n in {8,16,32}, all valuations of registers/flags/memory and all operator interpretations: the value is the n-bit sum/difference/bitwise result "
-         "(carry-in for adc/sbb), cf is the carry/borrow out, of the signed overflow, zf/sf/pf those of the result; inc/dec/neg likewise (cf of neg = operand <> 0); an assignment to a sub-register replaces exactly its bits of the register (write-back through ExprAff's slice rewriting, bit-level theorem); the XOR-based carry identities are proved for every width and value. af is refuted (known finding). "
-         "The rest of the integer core (not, mov, shifts, rotates, double shifts, mul/div, bit ops, extensions, flag ops, setcc/cmovcc, xchg/xadd/cmpxchg, lea, stack, string, control transfer) is NOT a theorem: "
+         "(carry-in for adc/sbb), cf is the carry/borrow out, of the signed overflow, zf/sf/pf those of the result; inc/dec/neg likewise (cf of neg = operand <> 0); an assignment to a sub-register replaces exactly its bits of the register (write-back through ExprAff's slice rewriting, bit-level theorem); the XOR-based carry identities are proved for every width and value. Condition codes: EVERY setcc (>400), cmovcc (>1200) and jcc (>50) form of the regenerated dump — all sixteen conditions in each family — realises in every state the SDM condition its mnemonic names (byte 1/0; destination takes the other operand or keeps its value; eip = other branch or next address), decided by evaluation under the 32 flag valuations and lifted to all states, memories and operator interpretations by a coincidence theorem for flag-only expressions; after a cmp the sixteen conditions are proved to be the unsigned/signed order relations. Data movement (mov xchg movzx movsx lea not push pop nop clc stc cmc cld std; >1100 regenerated forms): each lifted list is, node for node, the mirror SemMov.v applied to the operand expressions the lifter was called with (dumped beside the list by harness/impl_liftargs.py), except the shapes the mirror declines (segment-register push/pop; movzx/movsx/lea between equal or mismatched widths under the 66 prefix: <=120 forms, left to the evaluation); meaning theorems for all operands and states: movzx = source value, movsx = sign extension (bit level), not = one's complement, push/pop move esp by the operand size mod 2^32, pop to memory addressed through esp uses the incremented esp, cmc complements cf. af is refuted (known finding). "
+         "The rest of the integer core (shifts, rotates, double shifts, mul/div, bit ops, cbw/cwd family, lahf/sahf, xadd/cmpxchg, leave/enter/pusha, string, other control transfers) is NOT a theorem: "
          "the regenerated IR of every catalogue form (+ an addressing-mode sweep over every ModRM/SIB byte) is evaluated by the extracted Expr.eval on 6 (quick) / 40 (thorough) boundary x random states and compared with harness/x86ref.py "
          "(registers, defined flags, written bytes, eip). Deviations on the unchanged tree are listed per (mnemonic, operand size, output, shift-count class)."),
-   note=TB + "Sem.v is a hand mirror of ia32_sem.py's flag helpers and 12 semantic functions; its tie to the code is the kernel-checked identity with the regenerated IR (SemFacts.v), re-proved on every run. x86ref.py is a hand-written specification, reviewed against the SDM and validated against the real processor on every run (harness/cpucheck.py: 262 register forms, 0 disagreements on >100k executed states; testing, not proof).",
+   note=TB + "Sem.v is a hand mirror of ia32_sem.py's flag helpers and 12 semantic functions; its tie to the code is the kernel-checked identity with the regenerated IR (SemFacts.v), re-proved on every run. SemCC.cc_holds is the SDM condition table (vol. 2 app. B.1) written in Gallina — a specification, cross-checked by the theorem relating it to the order relations after cmp; the setcc/cmovcc/jcc checkers run on the regenerated IR itself (SemCCFacts.v), no mirror. x86ref.py is a hand-written specification, reviewed against the SDM and validated against the real processor on every run (harness/cpucheck.py: 262 register forms, 0 disagreements on >100k executed states; testing, not proof).",
    design='4/C04', category='other'),
  'C08': dict(
    technique='Coq theorem (coincidence lifted to assignment lists: nothing outside get_r can influence any value of ANY lifted list) + dependency and write probing of the implementation-reported sets against the SDM reference and an SSE operand-role table',
